@@ -198,6 +198,11 @@ type optSpec struct {
 	hasLevel bool
 	level    slog.Level
 	dropTime bool
+
+	// viaNew builds the handler with slogutil.New (format JSONHybrid), the way
+	// applications do; addTS is Config.AddTimestamp.
+	viaNew bool
+	addTS  bool
 }
 
 var optsTable = []optSpec{
@@ -220,6 +225,11 @@ var optsTable = []optSpec{
 	{name: "level-max", hasLevel: true, level: slog.Level(math.MaxInt64)},
 	{name: "level-min", hasLevel: true, level: slog.Level(math.MinInt64)},
 	{name: "level--2^31-1", hasLevel: true, level: -(1 << 31) - 1},
+	{name: "via-New/nil-level", viaNew: true},
+	{name: "via-New/info", viaNew: true, hasLevel: true, level: slog.LevelInfo},
+	{name: "via-New/debug/timestamp", viaNew: true, hasLevel: true, level: slog.LevelDebug, addTS: true},
+	{name: "via-New/trace", viaNew: true, hasLevel: true, level: slogutil.LevelTrace},
+	{name: "via-New/error/timestamp", viaNew: true, hasLevel: true, level: slog.LevelError, addTS: true},
 }
 
 const (
@@ -237,6 +247,21 @@ func (o optSpec) build() *slog.HandlerOptions {
 	opts := &slog.HandlerOptions{AddSource: false}
 	if o.hasLevel {
 		opts.Level = o.level
+	}
+
+	if o.viaNew {
+		// What slogutil.New documents for its handlers: the trace level is
+		// printed by name, and the time is dropped unless AddTimestamp is set
+		// (the two exported attribute functions are the reference for that).
+		opts.Level = o.configured()
+		opts.ReplaceAttr = slogutil.ReplaceLevel
+		if !o.addTS {
+			opts.ReplaceAttr = func(groups []string, a slog.Attr) slog.Attr {
+				return slogutil.ReplaceLevel(groups, slogutil.RemoveTime(groups, a))
+			}
+		}
+
+		return opts
 	}
 
 	if o.dropTime {
@@ -426,6 +451,19 @@ type env struct {
 func newEnv(o optSpec) (e *env, what string) {
 	e = &env{buf: &bytes.Buffer{}}
 	pv, _ := runlib.Try(func() {
+		if o.viaNew {
+			conf := &slogutil.Config{Output: e.buf, Format: slogutil.FormatJSONHybrid, AddTimestamp: o.addTS}
+			if o.hasLevel {
+				conf.Level = o.level
+			}
+
+			if l := slogutil.New(conf); l != nil && l.Handler() != nil {
+				e.root = l.Handler()
+			}
+
+			return
+		}
+
 		if h := slogutil.NewJSONHybridHandler(e.buf, o.build()); h != nil {
 			e.root = h
 		}
